@@ -212,6 +212,27 @@ CLAIMED["C25"] = dict(
     technique="contract-based deductive verification: modular callee contracts + inductive loop invariant with ghost worklist view, SMT-discharged (z3/cvc5); bounded schedule-perturbing stand-in",
 )
 
+CLAIMED["C11"] = dict(
+    category="proof",
+    text="Partial correctness. Every mutating method of PatternRewriter (insert, erase, replace_all_uses_with, replace_uses_with_if, replace, "
+         "replace_value_with_new_type, insert/erase_block_argument, inline_block, move_region_contents_to_new_regions, inline_region, "
+         "notify_op_modified), Builder.insert, the listener dispatch (handle_operation_*, extend_from_listener), _TrackingPredicate.__call__, the "
+         "walker's callbacks (_handle_operation_insertion/removal/modification/replacement, _add_operands_to_worklist, _populate_worklist), "
+         "_process_worklist, rewrite_region and GreedyRewritePatternApplier.match_and_rewrite are extracted from /repo and verified with ghost "
+         "state (IR-mutated flag, listener logs, erased set, visited-without-effect set): the action flag is set whenever the IR was mutated, every "
+         "insertion/removal/replacement/modification is reported (removal BEFORE the erase), every registered callback is invoked, removal takes "
+         "the op and all nested ops off the worklist (against the Worklist contract proved in C12), the op handed to the pattern is never an "
+         "erased one, the return value reports every mutation, and in recursive mode the walker returns only after a sweep in which the pattern "
+         "was applied to every op of the region without effect. The pattern call itself is an ASSUMED contract (the statement's hypothesis that "
+         "patterns change the IR only through the rewriter, closed under sequencing of the verified methods). Plus a bounded stand-in: real "
+         "walker on generated nested IR x 7 patterns x 8 configurations x perturbed worklist orders with all five postconditions.",
+    note="Not proved: termination of the outer loop; the composition 'listener handed to the rewriter forwards to the walker callbacks' "
+         "(_get_rewriter_listener builds bound-method lists: bounded only); IR-mutating primitives of core.py/rewriter.py are trusted callees here "
+         "(their IR effects are C01); name-hint carry-over is not counted as an IR change; pyvc + z3 trusted.",
+    design="§4 C11, §9",
+    technique="contract-based deductive verification with ghost logs and loop invariants (modular: Worklist contract from C12, assumed pattern contract), SMT-discharged; bounded runtime-contract stand-in under perturbed schedules",
+)
+
 NOT_APPLICABLE = {
     "C04": "whole Printer∘Parser composition over every dialect: recursive string programs; no per-function contract within reach of the SMT-backed generator expresses it",
     "C05": "about 80 dialects of hand-written print/parse pairs and a format-string interpreter; same obstacle as C04",
@@ -225,7 +246,7 @@ NOT_APPLICABLE = {
     "C28": "result preservation of an e-graph pipeline: whole-program statement with no per-function postcondition implying it",
 }
 
-NOT_REACHED = ["C06", "C09", "C11", "C18"]
+NOT_REACHED = ["C06", "C09", "C18"]
 
 
 def main():
